@@ -501,6 +501,9 @@ func plans() []plan {
 	for i := 0; i < mon.Pick(16, 200); i++ {
 		ps = append(ps, plan{mode: "subclose"})
 	}
+	for i := 0; i < mon.Pick(8, 120); i++ {
+		ps = append(ps, plan{mode: "stallorder"})
+	}
 	return ps
 }
 
@@ -508,7 +511,7 @@ func TestCheck(t *testing.T) {
 	rec = mon.Open("C10")
 	defer rec.Close()
 	rec.Note("rule", "a case is one history against the real Batcher in a synctest bubble: (lockstep) seeded Batch / sleep / Subscribe / cancel / Close sequences on a 1 ms grid with prompt subscribers, judged against the debounce reference including exact delivery instants; (stall) a never-reading subscriber with 52-70 events outstanding (past the 50-slot buffer) while further Batch / Subscribe / Close calls are made, resolved by cancelling or unleashing it; (directed) the delivery loop parked at fanout.send or a forwarder at fwd.exit while cancel / Close / Subscribe / Batch are issued. Non-trivial = at least one value was delivered to a subscriber; distinct = distinct step list.")
-	rec.Note("require", []string{"park.fanout.send", "subscribe.with_ended_context", "reactive.batch_from_event_handler", "park.fwd.exit", "park.queue.loop.fired", "park.queue.exec.popped", "judged", "stall.fanout_blocked", "stall.resolved_by_cancel", "stall.resolved_by_unleash", "delivered", "closed_channels_seen", "close.overlapping_calls_checked", "subclose.rounds"})
+	rec.Note("require", []string{"park.fanout.send", "subscribe.with_ended_context", "reactive.batch_from_event_handler", "park.fwd.exit", "park.queue.loop.fired", "park.queue.exec.popped", "judged", "stall.fanout_blocked", "stall.resolved_by_cancel", "stall.resolved_by_unleash", "delivered", "closed_channels_seen", "close.overlapping_calls_checked", "subclose.rounds", "stallorder.rounds_with_equal_sequences"})
 	ps := plans()
 	rec.Planned(len(ps))
 	for idx, pl := range ps {
@@ -518,6 +521,10 @@ func TestCheck(t *testing.T) {
 		rng := mon.NewRNG("c10", idx)
 		if pl.mode == "subclose" {
 			runSubClose(idx, rng)
+			continue
+		}
+		if pl.mode == "stallorder" {
+			runStallOrder(idx, rng)
 			continue
 		}
 		runCase(t, idx, rng, pl)
